@@ -782,16 +782,6 @@ func ruleLoaderCycle(c *Ctx) {
 	leaves := map[*ssa.Function]int{} // 0 unknown, 1 leaves a mark, 2 clean
 	var leavesMark func(f *ssa.Function, depth int) bool
 	unmarkAt := func(x ssa.Instruction) bool { return ls.isUnmarkA(x) }
-	hasDeferredUnmarkIn := func(f *ssa.Function) bool {
-		for _, b := range f.Blocks {
-			for _, ins := range b.Instrs {
-				if d, ok := ins.(*ssa.Defer); ok && unmarkAt(d) {
-					return true
-				}
-			}
-		}
-		return false
-	}
 	var markEvent func(ins ssa.Instruction, depth int) bool
 	markEvent = func(ins ssa.Instruction, depth int) bool {
 		if ls.isMarkA(ins) {
@@ -819,6 +809,14 @@ func ruleLoaderCycle(c *Ctx) {
 		}
 		return false
 	}
+	// a deferred unmark discharges the exits that follow its registration - a return between the mark and the
+	// `defer` (a fast path for leaf files) leaves the mark standing
+	unmarkOrDeferred := func(x ssa.Instruction) bool {
+		if d, ok := x.(*ssa.Defer); ok && unmarkAt(d) {
+			return true
+		}
+		return unmarkEvent(x)
+	}
 	leavesMark = func(f *ssa.Function, depth int) bool {
 		if depth > 3 {
 			return false
@@ -827,12 +825,9 @@ func ruleLoaderCycle(c *Ctx) {
 			return v == 1
 		}
 		leaves[f] = 2
-		if hasDeferredUnmarkIn(f) {
-			return false
-		}
 		for _, b := range f.Blocks {
 			for _, ins := range b.Instrs {
-				if markEvent(ins, depth) && escapes(ins, unmarkEvent) {
+				if markEvent(ins, depth) && escapes(ins, unmarkOrDeferred) {
 					leaves[f] = 1
 					return true
 				}
@@ -842,7 +837,6 @@ func ruleLoaderCycle(c *Ctx) {
 	}
 	nMarks := 0
 	for _, f := range ls.fns {
-		deferred := hasDeferredUnmarkIn(f)
 		for _, b := range f.Blocks {
 			for _, ins := range b.Instrs {
 				if !markEvent(ins, 0) {
@@ -853,7 +847,7 @@ func ruleLoaderCycle(c *Ctx) {
 					continue
 				}
 				nMarks++
-				okRemoved := deferred || !escapes(ins, unmarkEvent)
+				okRemoved := !escapes(ins, unmarkOrDeferred)
 				c.check(okRemoved, "G-ANCESTOR", funcName(f), "ancestor mark removed on exit", ins.Pos(),
 					"the mark placed on entry is removed on every exit (ancestor-stack discipline)",
 					"a file is marked in the set tested by the cycle check but the mark is not removed on every exit: 'currently being included' degenerates to 'seen before', so a file reached twice along different acyclic paths (a diamond) is reported as a cycle")
